@@ -117,6 +117,24 @@ class World(ControlWorld):
                 self.violate("C16.member_help", f"'{cmd} {flag}' (width {width}) does not show the first docstring line {doc!r}: {txt[:200]!r}")
                 continue
             self.sit["C16.member_help_ok"] += 1
+        if width <= 9:
+            # argparse never formats narrower than 11 columns of text: all tiny widths must give byte-identical help
+            # (a width that is silently replaced by the server's own terminal width shows here)
+            ref_w = 7 if width != 7 else 3  # (empirically CPython 3.12 argparse output is identical for widths 0..11)
+            s2 = await self.open(pool, ref_w)
+            if s2.handshake_exc is None:
+                for n, member in members[:6]:
+                    cmd = n.replace("_", "-")
+                    a = b"".join(await self.send(s, f"{cmd} -h"))
+                    b = b"".join(await self.send(s2, f"{cmd} -h"))
+                    if a != b:
+                        self.violate("C16.member_help", f"'{cmd} -h' differs between terminal widths {width} and {ref_w} although both are below argparse's minimum: "
+                                                        f"{len(a)} vs {len(b)} bytes, longest line {max(map(len, a.decode().splitlines() or ['']))} vs {max(map(len, b.decode().splitlines() or ['']))}")
+                        break
+                else:
+                    self.sit["C16.tiny_widths_identical"] += 1
+                s2.reader.feed_eof()
+                await self.idle()
         # "available as a command": the read-only members and the static methods are also executed (they cannot disturb
         # anything), the reply must be what the direct access gives
         import inspect as _inspect
